@@ -80,6 +80,19 @@ def validate_trace(trace, wd, timeout=900, extra_env=None):
     return res
 
 
+def run_mc_whole(model, cfg, wd, workers, timeout):
+    """one TLC run with many workers (reachable-state exploration, e.g. MC_Machine)"""
+    rc, log, dt = tlc(["-workers", str(workers), "-config", cfg, model], {"XMX": "10g"},
+                      os.path.join(wd, "md_%s" % cfg.replace(".cfg", "")), timeout)
+    if rc == 124:
+        raise ToolError("TLC timeout on model %s/%s" % (model, cfg))
+    m = re.search(r"(\d+) states generated, (\d+) distinct states found", log)
+    ok = "Model checking completed. No error has been found." in log
+    if not ok and "is violated" not in log:
+        raise ToolError("TLC failed on model %s/%s rc=%d\n%s" % (model, cfg, rc, log[-3000:]))
+    return ok, (int(m.group(2)) if m else 0), (int(m.group(1)) if m else 0), log, dt
+
+
 def run_mc(model, cfg, wd, nslices, timeout, extra_env=None):
     """exhaustive small-format model, sliced over `nslices` TLC processes (one worker each);
     returns (ok, states, transitions, log of the first failing slice or of slice 0, wall)"""
@@ -307,7 +320,10 @@ def run(prop, plan, tier, seed, replay, wd, known, t0):
         for mcj in plan.get("models", []):
             if tier == "quick" and mcj.get("tier") == "thorough":
                 continue
-            ok, st, tr, log, dt = run_mc(mcj["model"], mcj["cfg"], wd, mcj.get("slices", 16), mcj.get("timeout", 2400), mcj.get("env"))
+            if mcj.get("kind") == "whole":
+                ok, st, tr, log, dt = run_mc_whole(mcj["model"], mcj["cfg"], wd, JOBS, mcj.get("timeout", 2400))
+            else:
+                ok, st, tr, log, dt = run_mc(mcj["model"], mcj["cfg"], wd, mcj.get("slices", 16), mcj.get("timeout", 2400), mcj.get("env"))
             cov0 = []
             mc_results.append({"model": mcj["model"], "cfg": mcj["cfg"], "ok": ok, "states": st, "transitions": tr, "wall_s": round(dt, 1),
                                "what": mcj.get("what", "")})
